@@ -13,10 +13,23 @@ Hypotheses of the block-processor theorems, all of them about parameters:
   * `CodecOk P.codec` — the block codec's contract (what it compressed it uncompresses; a compressed block is shorter);
     without the round trip the *implementation* is schedule dependent: a fragment is compared against the
     in-flight copy of a fragment block or against the block re-read from disk, depending on the timing;
-  * the checksum `P.h` is arbitrary; the files carry arbitrary flag words and contents of any size.
+  * the checksum `P.h` is arbitrary; the files carry arbitrary flag words and contents of any size;
+  * **the worker function is pure**: `P.codec.cmp : Bytes → Option Bytes` is a *function of the block*.  In the C code it is
+    `do_block` of a compressor object (one `sqfs_copy` per worker thread) that lives as long as the processor; if its result
+    depended on what the object compressed before, the image would depend on which worker got which block, i.e. on the
+    schedule (`stateful_worker_schedule_dependent`).  The hypothesis is stated as `StatefulCodec.HistoryIndependent`
+    (Sqfs/Model/C02Worker.lean); under it a pool whose workers carry state is the pure pool (`stateful_pool_is_pure`,
+    `schedule_independent_stateful`).  For zlib / liblzma / liblz4 / libzstd it is part of the trusted base and is observed
+    on every run by harness/h_c02_comp.c (monitor `obsIndependent`).
 -/
 import Sqfs.Proofs.BPFinal
 import Sqfs.Proofs.BPSpecPack
+import Sqfs.Proofs.C02Worker
+import Sqfs.Proofs.BPFailRun
+import Sqfs.Proofs.BPSPCor
+import Sqfs.Props.C17
+import Sqfs.Proofs.C02Env
+import Sqfs.Witness.C02
 import Sqfs.Props.C09
 import Sqfs.Model.BuildEnv
 namespace Sqfs.C02
@@ -83,30 +96,35 @@ theorem finish_writes_everything (P : Params) (hc : CodecOk P.codec) (hB0 : 0 < 
     exact ⟨hf.ioQueue, hf.pool, hf.backlog, hf.deq, hf.fragBlock⟩
   · rw [hr] at h; cases h
 
-/-! ### towards `specPack` (DESIGN.md Appendix B)
+/-! ### `specPack` (DESIGN.md Appendix B, `Spec/PackSpec.lean`: the specification C17's directive theorems and the
+read-back theorem are stated against)
 
-Full statement, **not proved**:
+`run_eq_spec` reduces "the implementation model computes `specPack`" to `packRef = specPack`, a statement about two pure
+functions; it is proved in `Proofs/BPSP*.lean` (`Sqfs.BlockProc.packRef_eq_specPack`: closed form of the front end; the
+writer pass against `Pack.placeBlocks` through C08's `Abs` / `dedup_explicit`; the fragment pass against `Pack.placeTail` —
+`insertRef` replaces an equal key, `specPack` conses in front, every lookup answers the same; per-inode folds of the update
+lists).  The two do not have the same type, so the equality is stated on the observables they share, `PackView` = the whole
+output file, the fragment table, the inode fields of every file as the tools serialise them:
 
-    theorem run_eq_specPack (P) (hc : CodecOk P.codec) (hpos : ∀ x z, P.codec.cmp x = some z → 0 < z.length)
-        (hB0 : 0 < P.B) (hB : P.B < 2 ^ 24) (mb) (files) (hfl : ∀ f ∈ files, f.flags &&& blkUserSettable = f.flags) :
-        ∃ out, run (serial P) mb files = .ok out ∧
-          let o := Pack.specPack (toPackParams P) (files.map fun f => ⟨Pack.Flags.ofNat f.flags, f.data⟩)
-          out.file = P.pre ++ o.area ∧
-          out.frags = o.frags.map (fun e => (e.start, (Pack.Word.stored e.size e.raw).toNat)) ∧
-          out.files = o.files.map (fun r => ⟨r.size, r.words.map Pack.Word.toNat, r.start,
-                                            (r.frag.map (·.1)).getD 0xFFFFFFFF, (r.frag.map (·.2)).getD 0xFFFFFFFF,
-                                            r.sparse, r.extended⟩)
+  * `Output.view` forgets `calls`, the log of `write_data_block` calls (it contains the size-0 sentinel blocks and the
+    sparse blocks, which leave no trace in the layout);
+  * `specView` forgets `shared` (a ghost field of `FileResult`) and the block boundaries of `Out.blocks` (the data area is
+    the concatenation of the payloads) and encodes words / fragment references as the C values.
 
-`run_eq_spec` reduces it to `packRef = specPack`, a statement about two pure functions.  What is missing:
- (1) the closed form of the front end: `feFile` (the loop of `append`) produces `Pack.fullBlocks`/`Pack.tailOf` with the
-     `FIRST`/`LAST`/sentinel/`IS_FRAGMENT` pattern of Appendix B;
- (2) the writer pass against `Pack.placeBlocks`: `Sqfs.C08.bw_refines_spec` relates `write_data_block` to the checksum-free
-     `SState` specification of Spec/BlockWriter.lean; `SState` ↔ `placeBlocks`/`findMatch` (payload lists instead of
-     a byte string with offsets) is not proved;
- (3) the fragment pass against `Pack.placeTail`: `specPack` keeps the chunks newest first and never replaces, `fStep` follows
-     the hash table (insert replaces an equal key); equal on reachable states by `Sqfs.C08.frag_lookup_unique`, not proved here.
-Proved: the per-block worker rule.  The equality is *exercised* on every run: tools/checks/c02.py compares `packRef`, and
-tools/checks/c17.py compares `specPack`, with the same real code. -/
+Hypotheses on top of `run_eq_spec`'s: `hpos` (a successful `do_block` returns a positive size — part of `Pack.Codec.Ok`),
+user-settable flag words (otherwise `begin_file` refuses), and `byteCompare` (`file` and `uncmp` given to the processor, as
+`lib/common/src/writer/init.c` does): without the byte comparison the implementation deduplicates a fragment against a
+different one with the same size, checksum and `DONT_COMPRESS` flag, which `specPack` does not (counterexample in
+`Proofs/BPSPFinal.lean`). -/
+
+/-- **`run_eq_specPack`.**  For every `max_backlog` the implementation model on the serial pool produces the `specPack`
+layout: same output file, same fragment table, same inode fields of every file. -/
+theorem run_eq_specPack (P : Params) (hc : CodecOk P.codec) (hpos : ∀ x z, P.codec.cmp x = some z → 0 < z.length)
+    (hbc : P.byteCompare = true) (hB0 : 0 < P.B) (hB : P.B < 2 ^ 24) (mb : Nat) (files : List InFile)
+    (hfl : ∀ f ∈ files, f.flags &&& Consts.blkUserSettable = f.flags) :
+    ∃ out, run (serial P) mb files = .ok out ∧
+      out.view = specView P.pre (Sqfs.Pack.specPack (toPackParams P) (toPackFiles files)) :=
+  Sqfs.BlockProc.run_eq_specPack (serial P) rfl hc hpos hbc hB0 hB mb files hfl false
 
 /-- **`run_eq_specPack_partial`.**  `process_block` on a non-empty data block is `specPack`'s `workData`: the block is a
 hole (nothing stored, `sparse += size`), or it is stored raw / compressed with the checksum `workData` says. -/
@@ -169,12 +187,292 @@ theorem jobs_independent (P : Params) (hc : CodecOk P.codec) (hB0 : 0 < P.B) (hB
     run { P with ans := behAns beh₁ } mb₁ files = run { P with ans := behAns beh₂ } mb₂ files := by
   rw [(schedule_independent P hc hB0 hB n₁ beh₁ h₁ mb₁ files).2, (schedule_independent P hc hB0 hB n₂ beh₂ h₂ mb₂ files).2]
 
-/-! ### environment -/
+
+
+/-! ### the threaded block processor computes `specPack`: carry-over of C17's and C08's theorems -/
+
+/-- **`threaded_eq_specPack`.**  … and so does the block processor on top of *any* behaviour of the threaded pool: any
+number of workers, any schedule, any backlog. -/
+theorem threaded_eq_specPack (P : Params) (hc : CodecOk P.codec) (hpos : ∀ x z, P.codec.cmp x = some z → 0 < z.length)
+    (hbc : P.byteCompare = true) (hB0 : 0 < P.B) (hB : P.B < 2 ^ 24) (n : Nat) (beh : List Pool.Op → Pool.Ret)
+    (h : RealisedBy n beh) (mb : Nat) (files : List InFile)
+    (hfl : ∀ f ∈ files, f.flags &&& Consts.blkUserSettable = f.flags) :
+    ∃ out, run { P with ans := behAns beh } mb files = .ok out ∧
+      out.view = specView P.pre (Sqfs.Pack.specPack (toPackParams P) (toPackFiles files)) := by
+  have : ({ P with ans := behAns beh } : Params) = serial P := by
+    unfold serial; rw [realised_eq_serial n beh h]
+  rw [this]
+  exact run_eq_specPack P hc hpos hbc hB0 hB mb files hfl
+
+/-- **`threaded_readback`** (carry-over of C08 / C17's read-back theorem `Sqfs.C17.directives_preserve_content`).  Whatever
+the number of workers, the schedule and the backlog: the image the threaded block processor writes is the `specView` of the
+`specPack` layout `o`, the inode it produces for file `i` is the view of `o`'s result `r`, and reading file `i` back from
+that layout — block words in order, a hole as zeros, a stored block through `unc` unless raw, the tail end from its
+fragment block — yields exactly the file's input bytes. -/
+theorem threaded_readback (P : Params) (hc : CodecOk P.codec) (hpos : ∀ x z, P.codec.cmp x = some z → 0 < z.length)
+    (hbc : P.byteCompare = true) (hB0 : 0 < P.B) (hB : P.B < 2 ^ 24) (n : Nat) (beh : List Pool.Op → Pool.Ret)
+    (h : RealisedBy n beh) (mb : Nat) (files : List InFile)
+    (hfl : ∀ f ∈ files, f.flags &&& Consts.blkUserSettable = f.flags) (i : Nat) (hi : i < files.length) :
+    let o := Sqfs.Pack.specPack (toPackParams P) (toPackFiles files)
+    ∃ out r, run { P with ans := behAns beh } mb files = .ok out ∧ out.view = specView P.pre o ∧
+      o.files[i]? = some r ∧ out.files[i]? = some (resView r) ∧
+      Sqfs.Pack.readFile (toPackParams P) o r = files[i].data := by
+  intro o
+  obtain ⟨out, hrun, hview⟩ := threaded_eq_specPack P hc hpos hbc hB0 hB n beh h mb files hfl
+  have hi' : i < (toPackFiles files).length := by simpa [toPackFiles] using hi
+  obtain ⟨r, hr, hread⟩ := Sqfs.C17.directives_preserve_content (toPackParams P) hB0 (toPack_codec_ok P hc hpos)
+    (toPackFiles files) i hi'
+  refine ⟨out, r, hrun, hview, hr, ?_, ?_⟩
+  · have hf : out.files = o.files.map resView := congrArg PackView.files hview
+    rw [hf, List.getElem?_map, hr]; rfl
+  · rw [hread]; simp [toPackFiles]
+
+/-- **`threaded_directives`** (carry-over of C17's directive theorems).  Whatever the number of workers, the schedule and
+the backlog, the image the threaded block processor writes is the view of a layout `o` in which every packing directive
+has exactly its effect: `dont_compress` (block words raw or holes, the fragment block of the tail stored raw),
+`dont_fragment` (no fragment reference, `⌈size / B⌉` block words), `nosparse` (no hole, sparse counter 0, not extended, the
+tail gets a fragment reference), `dont_deduplicate` (own blocks behind every earlier file's, own fragment slot), and the
+layout follows the order of the file list. -/
+theorem threaded_directives (P : Params) (hc : CodecOk P.codec) (hpos : ∀ x z, P.codec.cmp x = some z → 0 < z.length)
+    (hbc : P.byteCompare = true) (hB0 : 0 < P.B) (hB : P.B < 2 ^ 24) (n : Nat) (beh : List Pool.Op → Pool.Ret)
+    (h : RealisedBy n beh) (mb : Nat) (files : List InFile)
+    (hfl : ∀ f ∈ files, f.flags &&& Consts.blkUserSettable = f.flags) :
+    let Q := toPackParams P
+    let F := toPackFiles files
+    let o := Sqfs.Pack.specPack Q F
+    ∃ out, run { P with ans := behAns beh } mb files = .ok out ∧ out.view = specView P.pre o ∧
+      (∀ i (hi : i < F.length), F[i].flags.dontCompress = true →
+        ∃ r, o.files[i]? = some r ∧ (∀ w ∈ r.words, w = .sparse ∨ ∃ k, w = .stored k true) ∧
+          (∀ k off, r.frag = some (k, off) → ∃ e, o.frags[k]? = some e ∧ e.raw = true)) ∧
+      (∀ i (hi : i < F.length), F[i].flags.dontFragment = true →
+        ∃ r, o.files[i]? = some r ∧ r.frag = none ∧
+          r.words.length = F[i].data.length / Q.B + (if F[i].data.length % Q.B > 0 then 1 else 0)) ∧
+      (∀ i (hi : i < F.length), F[i].flags.ignoreSparse = true →
+        ∃ r, o.files[i]? = some r ∧ (∀ w ∈ r.words, w ≠ .sparse) ∧ r.sparse = 0 ∧ r.extended = false ∧
+          (Sqfs.Pack.hasTailFrag Q.B F[i] = true → ∃ idx off, r.frag = some (idx, off))) ∧
+      (∀ i j (hij : i < j) (hj : j < F.length), F[j].flags.dontDedup = true →
+        ∃ ri rj, o.files[i]? = some ri ∧ o.files[j]? = some rj ∧ rj.shared = false ∧
+          (Sqfs.Pack.diskBytes rj.words > 0 → ri.start + Sqfs.Pack.diskBytes ri.words ≤ rj.start) ∧
+          (∀ a off b off', ri.frag = some (a, off) → rj.frag = some (b, off') →
+            a ≠ b ∨ off + (F[i]'(by omega)).data.length % Q.B ≤ off')) ∧
+      (∀ i j (hij : i < j) (hj : j < F.length),
+        ∃ ri rj, o.files[i]? = some ri ∧ o.files[j]? = some rj ∧
+          (rj.shared = false → (∃ k raw, Sqfs.Pack.Word.stored k raw ∈ rj.words) →
+            ri.start + Sqfs.Pack.diskBytes ri.words ≤ rj.start ∧
+            ((∃ k raw, Sqfs.Pack.Word.stored k raw ∈ ri.words) → ri.start < rj.start))) := by
+  intro Q F o
+  obtain ⟨out, hrun, hview⟩ := threaded_eq_specPack P hc hpos hbc hB0 hB n beh h mb files hfl
+  have hcQ := toPack_codec_ok P hc hpos
+  exact ⟨out, hrun, hview,
+    fun i hi hf => Sqfs.C17.dont_compress_effect Q F i hi hf,
+    fun i hi hf => Sqfs.C17.dont_fragment_effect Q F i hi hf,
+    fun i hi hf => Sqfs.C17.nosparse_effect Q F i hi hf,
+    fun i j hij hj hf => Sqfs.C17.dont_dedup_effect Q F i j hij hj hf,
+    fun i j hij hj => Sqfs.C17.layout_follows_order Q hB0 hcQ F i j hij hj⟩
+
+/-- **`script_schedule_independent`.**  The same for every *API script* — files, `sqfs_block_processor_submit_block`
+(manual submission) and `sqfs_block_processor_sync` calls in any order (`ApiOp`, Sqfs/Model/BlockProcFail.lean) — and for
+both variants of `sync`: over any behaviour of the threaded pool without failing callbacks the script computes what it
+computes over the serial pool.  (Independence of `max_backlog` for scripts with manual submissions is exercised by the
+check, not proved: the invariant of `Proofs/BP*.lean` covers the blocks the front end submits.) -/
+theorem script_schedule_independent (v : Variant) (P : Params) (n : Nat) (beh : List Pool.Op → Pool.Ret)
+    (h : RealisedBy n beh) (mb : Nat) (ops : List ApiOp) :
+    runOps v { P with ans := behAns beh } mb ops = runOps v (serial P) mb ops := by
+  have : ({ P with ans := behAns beh } : Params) = serial P := by
+    unfold serial; rw [realised_eq_serial n beh h]
+  rw [this]
+
+/-! ### per-worker compressor state: the purity of the worker function as an explicit hypothesis -/
+
+/-- **`stateful_pool_is_pure`.**  Workers that carry private compressor state (`StatefulCodec σ`: every worker owns a copy,
+`do_block` may change it), *any* assignment `asg` of submitted items to workers (the schedule's choice) and any initial
+states: if `do_block` is history independent, the worked items the pool hands back are `processBlock` with the pure codec
+applied to each item — exactly what `Model/BlockProc.lean` stores in the pool's table. -/
+theorem stateful_pool_is_pure {σ : Type} (P : Params) (c : StatefulCodec σ) (hi : c.HistoryIndependent) (asg : Nat → Nat)
+    (st : Nat → σ) (id : Nat) (items : List Blk) :
+    workItems P c asg st id items = items.map (processBlock { P with codec := c.pure }) :=
+  workItems_pure P c hi asg items st id
+
+/-- **`schedule_independent_stateful`.**  `schedule_independent` with the hypothesis spelled out: a compressor object with
+private state whose `do_block` is history independent (and whose pure form meets the codec contract), any number of
+workers, any assignment of blocks to workers, any schedule of the pool, any backlog — the worked items are the pure
+pool's and the run is the reference's. -/
+theorem schedule_independent_stateful {σ : Type} (P : Params) (c : StatefulCodec σ) (hi : c.HistoryIndependent)
+    (hc : CodecOk c.pure) (hB0 : 0 < P.B) (hB : P.B < 2 ^ 24) (n : Nat) (beh : List Pool.Op → Pool.Ret)
+    (h : RealisedBy n beh) (mb : Nat) (files : List InFile) :
+    (∀ (asg : Nat → Nat) (st : Nat → σ) (id : Nat) (items : List Blk),
+        workItems P c asg st id items = items.map (processBlock { P with codec := c.pure })) ∧
+    run { P with codec := c.pure, ans := behAns beh } mb files = runEager (serial { P with codec := c.pure }) files :=
+  ⟨fun asg st id items => stateful_pool_is_pure P c hi asg st id items,
+   (schedule_independent { P with codec := c.pure } hc hB0 hB n beh h mb files).2⟩
+
+/-- a compressor whose object remembers a "strategy": a block of 4 bytes or more sets it to 1 and is stored as
+`[first byte, length]`; a shorter block is compressed *with whatever strategy the object was left with* (the shape of
+the seeded defect C02-a2 in gzip.c: `deflateReset` does not reset the strategy) -/
+def leakyCodec : StatefulCodec Nat :=
+  { init := 0
+    doBlock := fun s x => if x.length ≥ 4 then (1, some [x.headD 0, 4]) else (s, some [UInt8.ofNat s])
+    unc := fun z => some z }
+
+def leakyP : Params := { B := 4, codec := leakyCodec.pure, h := fun _ => 0 }
+
+/-- the items the front end submits for one `DONT_FRAGMENT` file of 6 bytes with block size 4: a full block, a short last block -/
+def leakyItems : List Blk :=
+  [{ flags := Consts.blkDontFragment ||| Consts.blkFirstBlock, data := [5, 5, 5, 5], inode := some 0, index := 0 },
+   { flags := Consts.blkDontFragment ||| Consts.blkLastBlock, data := [6, 7], inode := some 0, index := 1 }]
+
+/-- the data area the block writer produces for worked items (all of them data blocks) -/
+def imageOf (P : Params) (worked : List Blk) : Option (List UInt8) :=
+  (wRun { wr := Sqfs.BlockWriter.init P.pre } worked).toOption.map (·.wr.file)
+
+/-- **`stateful_worker_schedule_dependent`.**  Without history independence the image depends on the schedule: the leaky
+compressor, two workers, the same two blocks — when worker 0 compresses both (what the serial pool does) the short block
+is stored as `[1]`, when worker 1 takes the short block it is stored as `[0]`; the data areas differ.  (And the leaky
+compressor is indeed not history independent.) -/
+theorem stateful_worker_schedule_dependent :
+    leakyItems = (feFiles 4 0 [⟨Consts.blkDontFragment, [5, 5, 5, 5, 6, 7]⟩]).toOption.getD [] ∧
+    imageOf leakyP (workItems leakyP leakyCodec (fun _ => 0) (fun _ => 0) 0 leakyItems) = some [5, 4, 1] ∧
+    imageOf leakyP (workItems leakyP leakyCodec (fun t => t) (fun _ => 0) 0 leakyItems) = some [5, 4, 0] ∧
+    ¬ leakyCodec.HistoryIndependent := by
+  refine ⟨by decide +kernel, by decide +kernel, by decide +kernel, ?_⟩
+  intro h
+  have := h 1 [6, 7]
+  revert this
+  decide
+
+
+/-! ### a failing compressor: determinism of failure
+
+`schedule_independent` assumes that no worker callback fails.  When the compressor fails on a block (`do_block < 0`),
+`process_block` returns the error to the pool, which records it as its status and hands the item back like any other
+(`Sqfs/Model/BlockProcFail.lean`).  The **current** block processor looks at the status only after a failed `submit` or a
+NULL `dequeue`, so a failure can be swallowed, depending on `max_backlog` and on the schedule:
+`Sqfs.Witness.C02.failure_swallowed_current` (replayed on the real code on every run; known finding).  With the
+**repaired** `sync` (it returns the pool status; fixes/C02-report-worker-failure.patch) the failure is reported whatever
+the backlog, worker count and schedule are:
+
+Full statement, proved in two parts (`failure_deterministic_partial`: block processor model on the serial pool, every
+`max_backlog`; `failed_item_back_status_nonzero`: threaded pool, every worker count and schedule):
+
+    theorem failure_deterministic (P fails rc) (n) (beh : behaviour of the threaded pool with `n` workers whose callback returns
+        `workRc fails rc` on the items) (mb files) :
+        (some callback invocation of the run is on an item the compressor fails on) → ∃ e, runV true { failParams P fails rc with ans := behAns beh } mb files = .error e
+
+What is missing for the single statement: the block processor model over an *arbitrary* behaviour of a failing threaded pool
+(the invariant of `Proofs/BP*.lean` is proved for the serial answers; `Sqfs.C09.refines_serial` needs failure-free callbacks).
+The threaded half below is the fact about the pool that the repaired `sync` relies on; the composition is exercised on every
+run (harness/h_c02.c, codec `toyf`, 10 scheduling policies × workers × backlogs: every run must end in an error). -/
+
+/-- the run on a healthy pool in which the blocks the compressor fails on are merely declined (stored uncompressed) — what the
+failing run computes as long as nobody has looked at the pool status -/
+def declined (P : Params) (fails : List UInt8 → Bool) : Params := serial { P with codec := failCodec P.codec fails }
+
+/-- **`failure_deterministic_partial`** (repaired `sync`, serial pool, every `max_backlog`).  If some callback invocation
+of the run is on an item the compressor fails on (`processed`: the items the pool has worked on, `rcOfTable`: the
+callback's return value), the run returns an error — it never returns 0 with an image in which the block is stored
+uncompressed.  (For the current `sync` this is false: `Sqfs.Witness.C02.failure_swallowed_current`.) -/
+theorem failure_deterministic_partial (P : Params) (fails : List UInt8 → Bool) (rc : Int) (mb : Nat) (files : List InFile)
+    (s₀ : Proc) (h₀ : runProcV true (declined P fails) mb files = .ok s₀)
+    (hf : ∃ id ∈ s₀.pool.ser.processed, rcOfTable fails rc s₀.pool.table id ≠ 0) :
+    ∃ e, runV true (failParams P fails rc) mb files = .error e := by
+  have hQ : failParams P fails rc = withAns (declined P fails) (failSerialAns fails rc) := rfl
+  have H : Agrees (declined P fails) (failSerialAns fails rc) (Healthy fails rc) :=
+    ⟨fun p op hg => hg.agree op, fun p b hg => hg.of_submit b, fun p op hg => hg.of_same op⟩
+  have hst : ∀ p, (poolStatus (withAns (declined P fails) (failSerialAns fails rc)) p).2 = 0 → Healthy fails rc p := by
+    intro p hp
+    simp only [poolStatus, failSerialAns_status] at hp
+    exact hp
+  cases hrun : runV true (failParams P fails rc) mb files with
+  | error e => exact ⟨e, rfl⟩
+  | ok out =>
+    exfalso
+    unfold runV at hrun
+    cases hp : runProcV true (failParams P fails rc) mb files with
+    | error e => rw [hp] at hrun; cases hrun
+    | ok s =>
+      rw [hQ] at hp
+      obtain ⟨hg, he⟩ := runProcV_checked_tr H hst (fun p hg => hg.record_status) mb files s hp
+      rw [h₀] at he
+      cases he
+      obtain ⟨id, hid, hne⟩ := hf
+      exact hne (hg.processed id hid)
+
+/-- **`failed_item_back_status_nonzero`** (threaded pool: every worker count, every schedule, spurious wake-ups).  Once an
+item whose callback failed has been handed back by `dequeue`, the pool status is non-zero — and stays so
+(`Sqfs.C09.failure_sticky`), so the `get_status` call at the end of the repaired `sync` reports it
+(`Sqfs.C09.failure_reported_get_status`). -/
+theorem failed_item_back_status_nonzero {cfg : Pool.Cfg} {n : Nat} {s : Pool.State} (hr : Pool.Reachable cfg n s) (t : Nat)
+    (ht : t < s.returned.length) (d : Nat) (hd : s.submitted[t]? = some d) (hrc : cfg.rcOf d ≠ 0) : s.status ≠ 0 := by
+  have hA := Sqfs.C09.inv_reachable hr
+  have hmem : t ∈ s.started.map (·.2.ticket) := by
+    rw [hA.startedPerm.mem_iff]
+    simp only [List.mem_append, List.mem_range]
+    exact Or.inl (Or.inl (Or.inl ht))
+  obtain ⟨p, hp, hpt⟩ := List.mem_map.mp hmem
+  have hdata := hA.startedData p hp
+  rw [hpt, hd] at hdata
+  have hdd : p.2.data = d := (Option.some.inj hdata).symm
+  rcases (Sqfs.C09.failure_recorded hr).2 p hp (by rw [hdd]; exact hrc) with h | h
+  · exact h
+  · exfalso
+    have hnd := (Sqfs.C09.at_most_once hr).2.2
+    rw [hpt] at h
+    -- `t` is among the returned tickets and among the tickets being finished: the ticket list has no duplicates
+    have h1 : t ∈ List.range s.returned.length := List.mem_range.mpr ht
+    simp only [List.append_assoc] at hnd
+    rw [List.nodup_append] at hnd
+    exact hnd.2.2 t h1 t (by simp only [List.mem_append]; exact Or.inr (Or.inr (Or.inl h))) rfl
+
+/-- non-vacuity of `failure_deterministic_partial`: the witness instance (five blocks, the compressor fails on the first),
+`max_backlog` 3 and 40 — the healthy run succeeds, its first callback invocation is on the marked block -/
+example :
+    let R := fun mb => runProcV true (declined { B := 4, codec := Sqfs.ToyCodec.codec 4, h := fun _ => 0 } Sqfs.Witness.C02.marked) mb
+      [Sqfs.Witness.C02.wFile]
+    ∀ mb ∈ [3, 40], ∃ s₀, R mb = .ok s₀ ∧
+      ∃ id ∈ s₀.pool.ser.processed, rcOfTable Sqfs.Witness.C02.marked (-3) s₀.pool.table id ≠ 0 := by
+  intro R
+  have helper : ∀ mb, (R mb).toOption.map (fun s => decide (0 ∈ s.pool.ser.processed) &&
+        decide (rcOfTable Sqfs.Witness.C02.marked (-3) s.pool.table 0 ≠ 0)) = some true →
+      ∃ s₀, R mb = .ok s₀ ∧ ∃ id ∈ s₀.pool.ser.processed, rcOfTable Sqfs.Witness.C02.marked (-3) s₀.pool.table id ≠ 0 := by
+    intro mb h
+    cases hr : R mb with
+    | error e => rw [hr] at h; cases h
+    | ok s₀ =>
+      rw [hr] at h
+      simp only [Except.toOption, Option.map_some, Option.some.injEq, Bool.and_eq_true, decide_eq_true_eq] at h
+      exact ⟨s₀, rfl, 0, h.1, h.2⟩
+  intro mb hmb
+  simp only [List.mem_cons, List.not_mem_nil, or_false] at hmb
+  rcases hmb with rfl | rfl
+  · exact helper 3 (by decide +kernel)
+  · exact helper 40 (by decide +kernel)
+
+/-! ### environment
+
+What is **proved** about the environment clause, and what is only **exercised**:
+
+* proved, about models: (1) `times_depend_only_on_source_date_epoch` — in the model of where time stamps come from
+  (`Model/BuildEnv.lean`) they are a function of the input, the options and `SOURCE_DATE_EPOCH`; the model simply has no
+  path from the clock, `TZ`, the locale, the umask or the working directory to a time stamp, so this theorem is a statement
+  about the *model*, true by its construction; that the model is the code is decided by the runs.  (2)
+  `tree_order_bytewise` — the order of directory entries (hence of inode numbers and of the file list) is fixed by the
+  *bytes* of the names: the model of `insert_sorted` (fstree.c) compares with `strcmp` (`nameLt`, a strict total order),
+  and the list it builds is the only strictly sorted arrangement (cites `Sqfs.C11.insertSorted_sorted`); no collation
+  order, case folding or character class enters.
+* exercised, on the real tools (tools/checks/c02.py, tool level): `TZ` × `LC_ALL` × umask × cwd × CPU affinity × a faked
+  clock; and — because no locale other than C can be installed in the sandbox — a **hostile locale behind the
+  locale-sensitive entry points of libc** (harness/shim_c02_locale.c: `setlocale` accepted, `strcoll`/`strxfrm` reversed and
+  case folded, Turkish case mapping in `strcasecmp`/`tolower`/the ctype tables, `,` as decimal point, a UTC+13:45 zone
+  behind `localtime`/`mktime`) on file names whose `strcmp` order differs from every collation (mixed case, punctuation,
+  UTF-8 and Latin-1/5 letters, dotted/dotless i): the image must not change, and every call of such a function is recorded
+  (currently: none but the `isdigit`/`isspace` macros; no `setlocale`; the only environment variable asked for is
+  `SOURCE_DATE_EPOCH`). -/
 
 /-- **Environment clause (model level).**  The time stamps of an image — the super block's `modification_time` and
 every inode's `mod_time` — are the same in two process environments that agree on `SOURCE_DATE_EPOCH`, whatever the
-wall clock, time zone, locale, umask and working directory are.  (That the tools consult nothing else is decided by
-the tool-level runs of tools/checks/c02.py with a faked clock and varied environments.) -/
+wall clock, time zone, locale, umask and working directory are.  (True by construction of `Model/BuildEnv.lean`, which has no
+other input; that the tools consult nothing else is decided by the tool-level runs of tools/checks/c02.py with a faked
+clock, a hostile locale shim and varied environments.) -/
 theorem times_depend_only_on_source_date_epoch (e1 e2 : ProcessEnv) (o : Options) (inputs : List Int)
     (h : e1.sourceDateEpoch = e2.sourceDateEpoch) : imageTimes e1 o inputs = imageTimes e2 o inputs := by
   simp [imageTimes, superMtime, inodeMtime, defaultMtime, h]
@@ -186,6 +484,21 @@ theorem source_date_epoch_default (s : List UInt8) (h : sdeDigits s 0 = none) :
   cases s with
   | nil => rfl
   | cons a t => simp [sourceDateEpoch, h]
+
+/-- **`tree_order_bytewise`** (environment clause, locale).  The children list `insert_sorted` (fstree.c) builds from nodes with
+pairwise different names — in whatever order they arrive — is the *only* arrangement of these nodes that is strictly
+sorted by `strcmp` (`nameLt`: lexicographic on unsigned bytes).  So the order of directory entries, and with it the inode
+numbering and the file list (`Sqfs.C11.numbering_deterministic`), is a function of the names' bytes: a locale has no say. -/
+theorem tree_order_bytewise (nodes : List Sqfs.FsTree.TNode) (hnd : (nodes.map Sqfs.FsTree.TNode.name).Nodup)
+    (l : List Sqfs.FsTree.TNode) (hp : l.Perm nodes) (hs : Sqfs.FsTree.SortedNames (l.map Sqfs.FsTree.TNode.name)) :
+    l = nodes.foldl (fun acc n => Sqfs.FsTree.insertSorted n acc) [] :=
+  Sqfs.FsTree.sorted_children_unique nodes hnd l hp hs
+
+/-- non-vacuity: `B`, `a`, `_x` arrive in the order a case-folding, punctuation-blind collation would produce
+(`a`, `B`, `_x`); `insert_sorted` yields the byte order `B` (0x42) < `_x` (0x5f) < `a` (0x61) -/
+example :
+    ([Sqfs.FsTree.TNode.mk [0x61] default [], .mk [0x42] default [], .mk [0x5f, 0x78] default []].foldl
+      (fun acc n => Sqfs.FsTree.insertSorted n acc) []).map Sqfs.FsTree.TNode.name = [[0x42], [0x5f, 0x78], [0x61]] := by decide
 
 /-! ### non-vacuity: the hypotheses are satisfiable on a non-trivial instance -/
 
